@@ -53,18 +53,19 @@ fn create_current_thread_server(
     );
 
     let core_ids = core_affinity::get_core_ids().unwrap();
+    // one server for all listener threads: they share the connection limit
+    let tcp_server =
+        memcache_server::memc_tcp::MemcacheTcpServer::new(memc_config, Arc::clone(&store));
 
     for i in 0..config.threads {
-        let store_rc = Arc::clone(&store);
+        let mut tcp_server = tcp_server.clone();
         let core_ids_clone = core_ids.clone();
         std::thread::spawn(move || {
             debug!("Creating runtime {}", i);
             let core_id = core_ids_clone[i % core_ids_clone.len()];
             let res = core_affinity::set_for_current(core_id);
-            let create_runtime = || {
+            let mut create_runtime = || {
                 let child_runtime = create_current_thread_runtime();
-                let mut tcp_server =
-                    memcache_server::memc_tcp::MemcacheTcpServer::new(memc_config, store_rc);
                 child_runtime.block_on(tcp_server.run(addr)).unwrap()
             };
             if res {
